@@ -171,11 +171,12 @@ func init() {
 	)
 
 	register("C11",
-		"Structural necessary conditions of 'the quadtree answers as a list would': no certain fault in any public method on a never-populated, one-point, two-level or emptied tree with boundary arguments (k in 0..3, buffers shorter/longer, nil/non-nil filter) - abstract interpretation. Answers after histories, pruning and ordering are NOT decided.",
+		"Structural necessary conditions of 'the quadtree answers as a list would': no certain fault in any public method on a never-populated, one-point, two-level or emptied tree with boundary arguments (k in 0..3, buffers shorter/longer, nil/non-nil filter) - abstract interpretation. Histories: short Add/Remove sequences over points with unknown coordinates in a tree with an unknown bound are run path by path (every midline comparison a recorded order fact); Remove answers true exactly for a stored pointer, reading the tree back over its own bound gives exactly the pointers added and not removed, and InBound over an unknown box returns exactly the stored pointers the path's facts place inside it (A-comp). Nearest / k-nearest answers and their ordering are NOT decided.",
 		ruleShapeFaults(shapeConfig{label: "quadtree API", keep: func(string) bool { return false }, extra: quadtreeAPI, floor: 9, override: quadtreeParams, post: rulePost("quadtree", quadtreePost)}),
 		ruleRejectBeforeWrite("quadtree.(*Quadtree).Add", "orb.(Bound).Contains"),
 		ruleBoxPredicates(append(append([]boxSpec(nil), quadtreeBoxPredicates...), orbBoundPredicates[1])),
 		ruleQuadtreeTables,
+		ruleCompose(quadtreeSpecs, 20),
 	)
 
 	register("C12",
